@@ -46,7 +46,7 @@ COMPONENTS = {"real": ["smpl_extract (all parsing + export code)", "construct", 
               "stub": ["SimFile with a truncation fault (reads clip at the cut, SEEK_END reports the cut)", "sandboxed output"]}
 ASSUMPTIONS = ["dependency sets are computed by the independent writer: partition header+SAT, the volume's directory sectors, the file's own (and its stereo partner's) sectors",
                "for cue/bin the bin is what gets cut; the cue sheet is intact"]
-EXPECTED_PROBES = ["cut_in_header", "cut_in_sat_or_fat", "cut_in_directory", "cut_in_first_data_sector", "cut_in_middle_data_sector", "cut_in_last_data_sector",
+EXPECTED_PROBES = ["cut_in_header", "cut_in_volume_table", "cut_in_sat_or_fat", "cut_in_directory", "cut_in_first_data_sector", "cut_in_middle_data_sector", "cut_in_last_data_sector",
                    "cut_in_pair_half", "cut_between_directory_and_data", "dirs_after_data", "prefix_exported", "complete_exported", "exception_path_taken",
                    "container_2352", "akai", "roland", "cdda", "eio_fired"]
 SHRINK = {"max_attempts": 150, "max_seconds": 120.0, "simple_values": {"policy": ["contiguous"], "block": [4096], "container": ["raw"]}}
@@ -110,6 +110,10 @@ def _cut_points(sc: dict, raw: bytes, dev: bytes, lay) -> List[Tuple[int, str]]:
         for p in lay.partitions:
             add(_to_dev(sc, p.base + 1), "header")
             add(_to_dev(sc, p.base + A.HDR_BYTES), "header")
+            add(_to_dev(sc, p.base + 2 + rng.randrange(200)), "header")                      # inside the magic / checksum bytes
+            add(_to_dev(sc, p.base + A.HDR_BYTES + rng.randrange(1, A.VOL_ENT * A.N_VOL)), "volume_table")
+            add(_to_dev(sc, p.base + A.HDR_BYTES + A.VOL_ENT * len(p.volumes) + rng.randrange(0, 16)), "volume_table")
+            add(_to_dev(sc, p.base + A.SAT_OFF + rng.randrange(1, 64)), "sat")
             add(_to_dev(sc, p.base + A.SAT_OFF + rng.randrange(2 * A.SAT_N)), "sat")
             add(_to_dev(sc, p.base + A.HDR_TOTAL), "sat")
             for s in range(p.nsect + 1):
@@ -270,7 +274,7 @@ def run(sc: dict) -> RunResult:
             res.faults["cut"] += 1 if sf.cut_hit else 0
             digests.append((cut, sf.event_digest(), er.stdout, tree_digest(er.tree), er.exc))
             _classify_cut(res, sc, lay, cut, label)
-            if label in ("data", "directory", "sat", "fat", "file_header"):
+            if label in ("data", "directory", "sat", "fat", "file_header", "volume_table"):
                 nontrivial = True
             if er.exc:
                 res.probes["exception_path_taken"] += 1
@@ -309,7 +313,7 @@ def run(sc: dict) -> RunResult:
 
 
 def _classify_cut(res: RunResult, sc: dict, lay, cut: int, label: str) -> None:
-    m = {"header": "cut_in_header", "sat": "cut_in_sat_or_fat", "fat": "cut_in_sat_or_fat", "directory": "cut_in_directory"}
+    m = {"header": "cut_in_header", "volume_table": "cut_in_volume_table", "sat": "cut_in_sat_or_fat", "fat": "cut_in_sat_or_fat", "directory": "cut_in_directory"}
     if label in m:
         res.probes[m[label]] += 1
     if sc["fmt"] == "akai":
